@@ -187,7 +187,31 @@ def observe(op, t, W, level):
 
 
 def _key(op):
-    return type(op).__name__
+    """outermost class plus call-site discriminators of the operator tree (used by the known-findings file): '+composite' when
+    a Prod / Sum sits below the top (its eigendecomposition is inherited by the wrappers), '+cv0' when a legacy Controlled
+    anywhere in the tree has a False control value, '+legacypow' when a legacy Pow sits below the top."""
+    tags = set()
+
+    def walk(o, top):
+        name = type(o).__name__
+        if not top and name in ("Prod", "Sum"):
+            tags.add("composite")
+        if not top and name in ("Pow", "PowOperation", "PowOpObs"):
+            tags.add("legacypow")
+        cv = getattr(o, "control_values", None)
+        if name in ("Controlled", "ControlledOp") and cv is not None and not all(cv):
+            tags.add("cv0")
+        kids = list(getattr(o, "operands", None) or [])
+        if getattr(o, "base", None) is not None:
+            kids.append(o.base)
+        for ch in kids:
+            walk(ch, False)
+
+    try:
+        walk(op, True)
+    except Exception:            # never let the key computation hide a violation
+        pass
+    return type(op).__name__ + "".join("+" + t for t in sorted(tags))
 
 
 def _close(a, b):
